@@ -213,6 +213,10 @@ class AServer(srv.ASrvHarness):
                  oracles=O, bound=d, cap=cap),
             dict(topo='single', capacity=1, gated=['A'], calls=[[[10, BIG, False]], [[11, BIG, False]]], stream=dict(xs=[0, 1], rex=True),
                  oracles=O, bound=d, cap=cap),
+            # the only slot belongs to a request whose caller has timed out; the next request waits for it - Server answers
+            # it as soon as the late result has freed the slot (C07 stream_drop, same configuration), so must AsyncServer
+            dict(topo='single', capacity=1, gated=['A'], env_wait=True, env_wait_t=3.0,
+                 calls=[[[0, 2, False]], [[1, BIG, False]]], late_call=9, oracles=O + ['timeouts'], bound=d, cap=cap),
         ]
 
 
